@@ -176,13 +176,17 @@ def case_panel(rng, tier):
         else:
             Farg = np.ascontiguousarray(np.broadcast_to(np.asarray(pk.F), (nx, ny, 6, 6)).copy())
 
+    okw, okind = gen.order_kwargs(rng, p, nx, ny)
+    c.tag('orders:' + okind)
+    c.desc['orders_given_as'] = okind
+
     def fint(cv):
         c.hit('calc_fint')
-        return np.asarray(p.calc_fint(np.ascontiguousarray(cv), silent=True, nx=nx, ny=ny, Fnxny=Farg))
+        return np.asarray(p.calc_fint(np.ascontiguousarray(cv), silent=True, Fnxny=Farg, **okw))
 
     def kT(cv):
         c.hit('calc_kT')
-        return p.calc_kT(c=np.ascontiguousarray(cv), silent=True, nx=nx, ny=ny, Fnxny=Farg).toarray()
+        return p.calc_kT(c=np.ascontiguousarray(cv), silent=True, Fnxny=Farg, **okw).toarray()
     wmask = np.zeros(size, bool); wmask[2::3] = True
     try:
         if fresh:
@@ -204,8 +208,8 @@ def case_panel(rng, tier):
     crep, rk = gen.vec_repr(rng, cvec, lists=False)
     c.tag('repr:' + rk)
     try:
-        f_rep = np.asarray(p.calc_fint(crep, silent=True, nx=nx, ny=ny, Fnxny=Farg))
-        k_rep = p.calc_kT(c=crep, silent=True, nx=nx, ny=ny, Fnxny=Farg).toarray()
+        f_rep = np.asarray(p.calc_fint(crep, silent=True, Fnxny=Farg, **okw))
+        k_rep = p.calc_kT(c=crep, silent=True, Fnxny=Farg, **okw).toarray()
     except Exception as e:
         return c.reject('%s for a %s amplitude vector: %s' % (type(e).__name__, rk, str(e)[:100]))
     c.expect('fint independent of the memory layout of the state vector', np.array_equal(f_rep, fint(cvec)), rk)
@@ -243,7 +247,17 @@ def case_assembly(rng, tier):
             if rng.random() < 0.4:
                 p.Nxx, p.Nyy, p.Nxy = gen.load_triple(rng, float(10 ** rng.uniform(0, 5)))
                 c.tag('ref_loads')
-        K0 = ass.calc_k0(silent=True).toarray()
+        # 40%: the linear stiffness comes from a twin assembly; the first call on the assembly under test is then a tangent or an
+        # internal force at a deformed state
+        fresh = bool(rng.random() < 0.4)
+        c.tag('order:fresh' if fresh else 'order:k0_first')
+        if fresh:
+            ass_k, ps_k, _ = gen.build_assembly(ad)
+            for p, q in zip(ps, ps_k):
+                q.nx, q.ny = p.nx, p.ny
+            K0 = ass_k.calc_k0(silent=True).toarray()
+        else:
+            K0 = ass.calc_k0(silent=True).toarray()
     except Exception as e:
         return c.reject('%s building assembly: %s' % (type(e).__name__, str(e)[:100]))
     t = float(np.mean([sum(d['lam']['plyts']) for d in ad['panels']]))
@@ -256,6 +270,17 @@ def case_assembly(rng, tier):
         c.hit('assembly.calc_kT')
         return ass.calc_kT(c=np.ascontiguousarray(cv), silent=True).toarray()
     wmask = np.zeros(size, bool); wmask[2::3] = True
+    if fresh:
+        try:
+            cprobe = rng.normal(size=size) * t
+            cprobe[~wmask] *= 0.05
+            first = str(rng.choice(['kT', 'fint']))
+            c.tag('first:' + first)
+            if first == 'kT':
+                kT(cprobe)
+            f_first = fint(cprobe)
+        except Exception as e:
+            return c.reject('%s in the first call on a fresh assembly: %s' % (type(e).__name__, str(e)[:100]))
     try:
         fint(np.zeros(size))
     except Exception as e:
@@ -267,6 +292,14 @@ def case_assembly(rng, tier):
         cvec, amp = judge_object(c, rng, fint, kT, K0, size, wmask, t, 'assembly: ', ndir=4, blocks=[(p.col_start, p.col_end) for p in ps])
     except Exception as e:
         return c.reject('%s in assembly fint/kT: %s' % (type(e).__name__, str(e)[:100]))
+    if fresh:
+        f_again = fint(cprobe)
+        den = np.abs(f_again) + 1e-9 * np.abs(f_again).max() + 1e-300
+        c.judge('assembly: fint asked on a fresh assembly (after a first tangent or as the first call) equals fint of the same state asked later',
+                float((np.abs(f_first - f_again) / den).max()), 1e-12)
+        Kl = ass.calc_k0(silent=True).toarray()
+        sck = np.abs(K0) + 1e-9 * np.abs(K0).max() + 1e-300
+        c.judge('assembly: k0 asked after tangent and force evaluations equals k0 of a twin assembly asked first', float((np.abs(Kl - K0) / sck).max()), 1e-12)
     # the connection forces are part of fint: fint(c) - sum of panel forces = k0_conn * c
     kc = ass.get_k0_conn().toarray()
     fsum = np.zeros(size)
